@@ -174,6 +174,68 @@ def play(scripts, stop_at, horizon, bind_mode, min_delay, max_increases, interva
     return obs
 
 
+def stop_on_closed_peer(hook_time, stop_after, inbound):
+    """the SMSC sends a request and closes its socket; the application's received hook is still running (so the end of the connection
+    has not been noticed and the session counts as bound) when stop() is called; afterwards the receiver answers the request.
+    stop() must return and start() must end without an exception."""
+    import struct
+    from harness import smppref
+    from aiosmpplib.retrytimer import SimpleExponentialBackoff
+    loop = vsess.VLoop()
+    asyncio.set_event_loop(loop)
+    smsc = vsess.FakeSMSC(loop)
+    undo = vsess.install(loop, smsc)
+    obs = {}
+    try:
+        esme, hook = vsess.quiet_esme(enquire_link_interval=30.0, socket_timeout=10.0, retry_timer=SimpleExponentialBackoff(200, 2))
+        q = {'deliver_sm': smppref.encode_sm(5, 5, src=b'111', dst=b'222', short_message=b'hello'),
+             'enquire_link': smppref.header(0x15, 0, 5)}[inbound]
+
+        def rgate(m, p):
+            if bytes(p) == q:
+                return asyncio.sleep(hook_time)
+            return None
+        hook.received_gate = rgate
+
+        def on_pdu(conn, pdu):
+            for p in vsess.split_pdus(pdu)[0]:
+                cmd, seq = struct.unpack('>I', p[4:8])[0], struct.unpack('>I', p[12:16])[0]
+                if cmd in (1, 2, 9):
+                    conn.send(vsess.bind_resp_for(p))
+                    if conn.index == 0:
+                        conn.send(q, delay=0.5)
+                        conn.close_peer(delay=0.6)
+        smsc.on_pdu = on_pdu
+
+        async def main():
+            t = asyncio.create_task(esme.start())
+            await asyncio.sleep(0.6 + stop_after)
+            st = asyncio.create_task(esme.stop())
+            await asyncio.sleep(120.0)
+            obs['stop_returned'] = st.done()
+            obs['start_done'] = t.done()
+            obs['start_exc'] = repr(t.exception()) if t.done() and not t.cancelled() and t.exception() is not None else None
+            for x in (st, t):
+                if not x.done():
+                    x.cancel()
+            await asyncio.gather(st, t, return_exceptions=True)
+        loop.run_until_complete(main())
+    finally:
+        undo()
+        vsess.finish(loop)
+    return obs
+
+
+def oracle_stop_on_closed_peer(obs):
+    if obs['start_exc']:
+        return f'start() ended with {obs["start_exc"]}'
+    if not obs['stop_returned']:
+        return 'stop() had not returned 120 s later'
+    if not obs['start_done']:
+        return 'start() was still running 120 s after stop()'
+    return None
+
+
 def exn_term(e):
     return cz(common.exn_index(e))
 
@@ -327,6 +389,16 @@ def run(ctx):
             cases.append((f'({min_delay}, {max_inc}, {term})', czl(exp)))
         if i < 1:
             ctx.sample({'scripts': repr(scripts), 'attempts': base['attempts'][:8], 'waits': base['waits'][:8]})
+    # ---- stop() while the received hook is still busy with a request of an SMSC that has already closed its socket
+    for inbound in ('deliver_sm', 'enquire_link'):
+        for hook_time, stop_after in ((1.0, 0.3), (3.0, 1.0), (0.0, 0.3)) + (((12.0, 5.0), (0.5, 0.45)) if ctx.thorough else ()):
+            obs = stop_on_closed_peer(hook_time, stop_after, inbound)
+            ctx.traces += 1
+            ctx.case(('stop_on_closed_peer', inbound, hook_time, stop_after), nontrivial=True)
+            msg = oracle_stop_on_closed_peer(obs)
+            if msg:
+                ctx.violation(f'the SMSC sends {inbound} and closes its socket; the received hook takes {hook_time} s; stop() is called {stop_after} s after '
+                              f'the close: {msg}', {'function': 'stop_on_closed_peer', 'inbound': inbound, 'hook_time': hook_time, 'stop_after': stop_after})
     if proved or not getattr(ctx, 'build_failing', None):
         bad, errs = core.run_cases('C07', 'run', IMPORTS, 'fun p : Z * Z * list (cycle * bool * bool) => ser_run (fst (fst p)) (snd (fst p)) (snd p)', cases, shard=100)
         for fnm, out in errs:
@@ -348,6 +420,12 @@ def replay(ctx, path):
         obs = play(scripts, rp['stop_at'], 400.0, rp['bind_mode'], rp['min_delay_ms'], rp['max_increases'])
         print('replay:', {k: obs.get(k) for k in ('attempts', 'waits', 'done', 'state', 'start_returned_after', 'conns')})
         print('oracle:', oracle(obs, scripts, rp['bind_mode'], rp['min_delay_ms'], rp['max_increases'], 30.0, 10.0))
+    elif rp.get('function') == 'stop_on_closed_peer':
+        obs = stop_on_closed_peer(rp['hook_time'], rp['stop_after'], rp['inbound'])
+        msg = oracle_stop_on_closed_peer(obs)
+        print('replay:', obs)
+        print('replay:', msg or 'property holds on this input')
+        return 1 if msg else 0
     else:
         print('replay:', json.dumps(rp)[:1500])
     return 0
